@@ -308,9 +308,65 @@ var c11EscapeOther = func() []rune {
 	return rs
 }()
 
-func c11EscapeGridN() int64 { return 12*12*12*12 + 95 + int64(len(c11EscapeOther)) }
+// c11SurrogateUnits: \u escapes at the edges of the surrogate ranges; every
+// sequence of two and of three of them is a case (a text is well formed iff
+// every high surrogate is directly followed by a low one and every low one
+// directly preceded by a high one)
+var c11SurrogateUnits = []string{"D7FF", "d800", "DBFF", "dc00", "DFFF", "E000", "0041"}
+
+func c11SurrogateSeqN() int64 { return 7*7 + 7*7*7 }
+
+func c11SurrogateSeq(r *fw.Rec, i int64) {
+	var idx []int
+	if i < 49 {
+		idx = []int{int(i / 7), int(i % 7)}
+	} else {
+		i -= 49
+		idx = []int{int(i / 49), int(i / 7 % 7), int(i % 7)}
+	}
+	var esc strings.Builder
+	units := make([]uint16, len(idx))
+	for k, j := range idx {
+		esc.WriteString("\\u" + c11SurrogateUnits[j])
+		n, _ := strconv.ParseUint(c11SurrogateUnits[j], 16, 16)
+		units[k] = uint16(n)
+	}
+	ok := true
+	for k := 0; k < len(units); k++ {
+		hi := units[k] >= 0xD800 && units[k] <= 0xDBFF
+		lo := units[k] >= 0xDC00 && units[k] <= 0xDFFF
+		switch {
+		case hi:
+			if k+1 >= len(units) || units[k+1] < 0xDC00 || units[k+1] > 0xDFFF {
+				ok = false
+			}
+			k++ // the low half of the pair
+		case lo:
+			ok = false
+		}
+	}
+	text := `"x` + esc.String() + `y"`
+	if r.Case()%2 == 1 {
+		text = `{'k` + esc.String() + `': ['` + esc.String() + `']}`
+	}
+	if !ok {
+		c11CheckMalformed(r, text)
+		r.Tag("surrogate-sequences:malformed")
+		return
+	}
+	if text[0] == '{' {
+		text = `{"k` + esc.String() + `": ["` + esc.String() + `"]}`
+	}
+	c11Check(r, text, "surrogate-sequences:valid")
+}
+
+func c11EscapeGridN() int64 { return 12*12*12*12 + 95 + int64(len(c11EscapeOther)) + c11SurrogateSeqN() }
 
 func c11EscapeGrid(r *fw.Rec, i int64) {
+	if g := int64(12*12*12*12 + 95 + len(c11EscapeOther)); i >= g {
+		c11SurrogateSeq(r, i-g)
+		return
+	}
 	var esc string
 	if i < 12*12*12*12 {
 		b := []byte{'\\', 'u', 0, 0, 0, 0}
@@ -345,7 +401,7 @@ func init() {
 	fw.Register(&fw.Prop{
 		ID: "C11", Title: "JSON texts are expressions that denote themselves",
 		Rule: fmt.Sprintf("cases: (a) exhaustive: all %d string literals of <=3 units over a 20-unit alphabet of JSON escapes (incl. \\uXXXX and a surrogate pair), raw BMP/astral characters and JSONata metacharacters, each double-quoted and rewritten single-quoted; ", nStr) +
-			"(b) a fixed list of malformed texts (bad escapes, unpaired surrogates, out-of-range and non-JSON numbers, trailing commas, unterminated strings) that must be compile errors; (b2) the escape grid: \\u followed by each of the 20736 four-character strings over the alphabet 0 4 a F d 8 g + - space _ x, and a backslash followed by each printable ASCII character, each control character, each character of U+0080..U+024F and the characters that share the low bits of an escape letter: what encoding/json accepts must denote the same value, everything else and lone surrogates must be compile errors; (c) PRNG-generated RFC 8259 texts of depth<=5, width<=4 with unique keys: every escape form, all number syntaxes (-0, exponent forms, 17+ digits, subnormals, 1e308), empty and nested containers, arbitrary inter-token whitespace. " +
+			"(b) a fixed list of malformed texts (bad escapes, unpaired surrogates, out-of-range and non-JSON numbers, trailing commas, unterminated strings) that must be compile errors; (b2) the escape grid: \\u followed by each of the 20736 four-character strings over the alphabet 0 4 a F d 8 g + - space _ x, and a backslash followed by each printable ASCII character, each control character, each character of U+0080..U+024F and the characters that share the low bits of an escape letter, and every sequence of two and three \\u escapes at the edges of the surrogate ranges: what encoding/json accepts must denote the same value, everything else and lone surrogates must be compile errors; (c) PRNG-generated RFC 8259 texts of depth<=5, width<=4 with unique keys: every escape form, all number syntaxes (-0, exponent forms, 17+ digits, subnormals, 1e308), empty and nested containers, arbitrary inter-token whitespace. " +
 			"Oracle: encoding/json's decoding of the same text; EvalBytes(text-as-expression) on five different inputs (null, an object, an empty array, an array of empty containers, a string) must decode to exactly that value (numbers bit-for-bit, the sign of zero included). non-trivial = every case; distinct by text",
 		Assumptions: []string{"encoding/json is the JSON parser of reference, except for unpaired surrogates, where the statement (compile error) is the oracle", "object keys are unique"},
 		Plan: func(tier string, seed uint64) *fw.Plan {
